@@ -512,7 +512,6 @@ Section Linux.
   Variable tpid : Z.              (* topology->pid *)
   Variable nr_cpus : N.           (* hwloc_linux_find_kernel_nr_cpus (function-static cache) *)
   Variable max_numnodes : N.      (* hwloc_linux_find_kernel_max_numnodes (cache), a multiple of 64 *)
-  Variable heap_garbage : bset.   (* what freshly malloc'ed words hold *)
 
   (* kernel state, the two function-static preferred_many_notsupported flags, kernel-call trace *)
   Record lw := LW { l_k : KW; l_pm_area : Z; l_pm_thread : Z; l_ktrace : list kcall }.
@@ -624,8 +623,8 @@ Section Linux.
     let last := match bs_last ns with Some l => l | None => 0 end in
     let maxi := (last + 1 + HWLOC_BITS_PER_LONG - 1) / HWLOC_BITS_PER_LONG * HWLOC_BITS_PER_LONG in
     (maxi, bs_inter ns (bs_range 0 maxi)).
-  (* memset(fullmask, 0xf, ...): every byte 0x0f *)
-  Definition migrate_fullmask (maxi : N) : bset := bs_of_N ((2 ^ maxi - 1) / 255 * 15).
+  (* memset(fullmask, 0xff, ...): every node below max_os_index *)
+  Definition migrate_fullmask (maxi : N) : bset := bs_range 0 maxi.
 
   Definition pm_fix (pm lp : Z) : Z :=
     if (pm =? 1)%Z && (lp =? zN MPOL_PREFERRED_MANY)%Z then zN MPOL_PREFERRED else lp.
@@ -695,12 +694,16 @@ Section Linux.
     else (HR 1 (hr_errno r) bs_empty 0, w2).
 
   Definition below_max (s : bset) : bset := bs_inter s (bs_range 0 max_numnodes).
+  (* "MPOL_PREFERRED with empty mask is MPOL_LOCAL" *)
+  Definition page_lp (r : kres) : Z :=
+    if (k_mode r =? zN MPOL_PREFERRED)%Z && bs_is_empty (below_max (k_set r)) then zN MPOL_LOCAL else k_mode r.
+  Definition lp_is_local (lp : Z) : bool := (lp =? zN MPOL_DEFAULT)%Z || (lp =? zN MPOL_LOCAL)%Z.
   (* hwloc_linux_get_thisthread_membind *)
   Definition linux_get_thisthread_membind (w : lw) : hres * lw :=
     let (r, w1) := kc (K_get_mempolicy false max_numnodes 0) w in
     if (k_rc r <? 0)%Z then (hfail (k_errno r), w1) else
-    let lp := if (k_mode r =? zN MPOL_PREFERRED)%Z && bs_is_empty (below_max (k_set r)) then zN MPOL_LOCAL else k_mode r in
-    let ns := if (lp =? zN MPOL_DEFAULT)%Z || (lp =? zN MPOL_LOCAL)%Z then t_nodeset T else below_max (k_set r) in
+    let lp := page_lp r in
+    let ns := if lp_is_local lp then t_nodeset T else below_max (k_set r) in
     match hwloc_policy lp with
     | Some p => (HR 0 None ns p, w1)
     | None => (HR (-1) (Some EINVAL) ns 0, w1)
@@ -714,15 +717,15 @@ Section Linux.
     | S n' =>
       let (r, w1) := kc (K_get_mempolicy true max_numnodes MPOL_F_ADDR) w in
       if (k_rc r <? 0)%Z then ((Some (k_errno r), a), w1) else
-      let lp := if (k_mode r =? zN MPOL_PREFERRED)%Z && bs_is_empty (below_max (k_set r)) then zN MPOL_LOCAL else k_mode r in
+      let lp := page_lp r in
       let gp := if aa_first a then lp else aa_gp a in
       let mixed := if aa_first a then aa_mixed a else if negb (aa_gp a =? lp)%Z then true else aa_mixed a in
-      let isfull := aa_full a || (lp =? zN MPOL_DEFAULT)%Z || (lp =? zN MPOL_LOCAL)%Z in
+      let isfull := aa_full a || lp_is_local lp in
       let gm := if isfull then aa_gmask a else bs_union (aa_gmask a) (below_max (k_set r)) in
       area_pages n' (AA lp gp mixed isfull false gm) w1
     end.
-  (* only the first word of globallinuxmask is zeroed: memset(.., 0, sizeof one word) *)
-  Definition area_gmask0 : bset := bs_inter heap_garbage (bs_range HWLOC_BITS_PER_LONG (max_numnodes - HWLOC_BITS_PER_LONG)).
+  (* memset(globallinuxmask, 0, all max_os_index/BITS_PER_LONG words) *)
+  Definition area_gmask0 : bset := bs_empty.
   Definition pages_of (len : N) : nat := N.to_nat ((len + 4095) / 4096).
   Definition linux_get_area_membind (len : N) (w : lw) : hres * lw :=
     let '((e, a), w1) := area_pages (pages_of len) (AA 0 0 false false true area_gmask0) w in
